@@ -523,6 +523,27 @@ func NewEpoch(epochNum)
   ensures [C20] forall k Bytes {store.opt(k)} :: prefix("cnr", k) && epochNum - epochOf(k) > 4 ==> !store.has(k)
   ensures [C20] forall k Bytes {store.opt(k)} :: prefix("cnr", k) && !(epochNum - epochOf(k) > 4) ==> store.opt(k) == old(store).opt(k)
 
+// the readers walk the values under cnr<i2b(epoch)><cid> resp. cnr<i2b(epoch)> (key/value pairs without the prefix) ...
+func IterateContainerSizes(epoch, cid) (r)
+  ensures [C20] len(cid) == 32 && r.prefix == "cnr" ++ i2b(epoch) ++ cid && r.opts == 12 && r.pos == 0 && r.store == old(store)
+  ensures [C20] store == old(store) && notifs == old(notifs)
+
+func IterateAllContainerSizes(epoch) (r)
+  ensures [C20] r.prefix == "cnr" ++ i2b(epoch) && r.opts == 10 && r.pos == 0 && r.store == old(store)
+  ensures [C20] store == old(store) && notifs == old(notifs)
+
+// ... which is exact only among epochs whose encodings have the same length: the variable-length epoch field lets
+// cnr<i2b(e)> match estimations stored for another epoch (known finding)
+pure enc(x Int) Bytes = x == 0 ? "" :
+      (x < 128 ? byte(x) :
+      (x < 32768 ? byte(x % 256) ++ byte(x / 256) :
+      (x < 8388608 ? byte(x % 256) ++ byte((x / 256) % 256) ++ byte(x / 65536) :
+      (x < 2147483648 ? byte(x % 256) ++ byte((x / 256) % 256) ++ byte((x / 65536) % 256) ++ byte(x / 16777216) :
+        byte(x % 256) ++ byte((x / 256) % 256) ++ byte((x / 65536) % 256) ++ byte((x / 16777216) % 256) ++ byte(x / 4294967296)))))
+pure encLen(x Int) Int = x == 0 ? 0 : (x < 128 ? 1 : (x < 32768 ? 2 : (x < 8388608 ? 3 : (x < 2147483648 ? 4 : 5))))
+lemma IterateAllExact [C20] finding F_C20_container_epoch_prefix (encLen(e) != encLen(f)) : forall e Int, f Int, p Bytes :: 0 <= e && e < 4294967296 && 0 <= f && f < 4294967296 && len(p) == 42
+        && prefix("cnr" ++ enc(e), "cnr" ++ enc(f) ++ p) ==> e == f
+
 func PutContainerSize(epoch, cid, usedSize, pubKey)
   requires [Pre] len(cid) == 32
   ensures [C20] live(old(store), cid) && W(pubKey)
